@@ -168,9 +168,11 @@ func runCanon(r *engine.Run) {
 // ---- length table: a.length = v and defineProperty(a, "length", d) ----
 
 func runLength(r *engine.Run) {
-	im := objdrv.New(prelude8)
+	im := objdrv.New(prelude8 + preludeOrder)
 	vals := []V{num(0), num(1), num(2), num(3), num(4), num(4294967295), num(4294967296), num(-1), num(1.5), num(math.NaN()), str("2"), str("x"),
-		{K: "bool", B: true}, vNull, vU, {K: "vo2"}, num(math.Copysign(0, -1)), str(""), str("1e0")}
+		{K: "bool", B: true}, vNull, vU, {K: "vo2"}, num(math.Copysign(0, -1)), str(""), str("1e0"),
+		// objects with logging valueOf/toString: 15.4.5.1 steps 3.c-3.d convert the value twice
+		logArg("v1", 1), logArg("v5", 5), logArg("v1.5", 1.5)}
 	type rv struct {
 		id, js string
 		m      func(w *cw) *om.Obj
